@@ -12,3 +12,12 @@ package bigint
 //@ ensures[minimal] result == 0 || buf[result-1] != ite(isNeg, 0xff, 0)
 //@ loop 0 invariant 0 <= size && size <= len(buf) && forall(k, size, len(buf), buf[k] == b)
 //@ loop 0 decreases size
+
+// FromBytes is only given a safety contract here (its value semantics, word arithmetic on
+// math/big internals, is outside the verifier's reach): it panics exactly on a nil slice.
+//@ prop C17,C18
+//@ func FromBytes
+//@ assumed
+//@ pure
+//@ requires data != nil
+//@ ensures result != nil
